@@ -16,15 +16,15 @@ CHECKS = {
                 note="Trusts the reference decoder and its gray-zone classification (lenient-parser deviations are executed but not judged beyond the prefix rule). Complete for the fixed bases; sampled elsewhere."),
     "C03": dict(cat="exploration", design="DESIGN.md §3 C03",
                 technique="runtime monitoring over a bounded-exhaustive configuration matrix: scripted responses whose trailing bytes make each framing interpretation recognisable, reference decision list as oracle",
-                text="Enumerates method x status x Content-Length configuration x Transfer-Encoding configuration x extra bytes (20k heads, x3 segmentations in thorough) through the production pipeline; the body delivered must be the one of the framing the RFC 9112 §6.3 decision list selects, and invalid or disagreeing lengths must fail the exchange. Followed redirects with an unusable Content-Length must fail before a second request.",
+                text="Enumerates method x status x Content-Length configuration x Transfer-Encoding configuration x extra bytes (20k heads, x3 segmentations in thorough) through the production pipeline; the body delivered must be the one of the framing the RFC 9112 §6.3 decision list selects, and invalid or disagreeing lengths must fail the exchange. Followed redirects with an unusable Content-Length must fail before a second request. Bodiless responses also declare content codings; Content-Length values with control characters must fail.",
                 note="The decision list in the harness is written from the statement; combinations the statement does not fix are executed but not judged (listed in the evidence assumptions)."),
     "C04": dict(cat="exploration", design="DESIGN.md §3 C04",
                 technique="runtime monitoring: generator-built response heads through the scripted transport, generator-as-oracle comparison of status and per-name header sequences",
-                text="All status codes 100..999, generated header lists (token-alphabet names, obs-text, blanks, duplicates, bare-LF continuations, > 8 KiB blocks, exactly max_headers fields) under all 2^13 segmentations of a 14-byte head, every split point of 10 bases, bytewise and random segments; status(), per-name get_all() order and values, total count and the hiding of Transfer-Encoding are compared with what the generator put on the wire.",
+                text="All status codes 100..999, generated header lists (token-alphabet names, obs-text, blanks, duplicates, bare-LF continuations, > 8 KiB blocks, exactly max_headers fields) under all 2^13 segmentations of a 14-byte head, every split point of 10 bases, bytewise and random segments; status(), per-name get_all() order and values, total count and the hiding of Transfer-Encoding are compared with what the generator put on the wire. Boundary values of max_headers (0 ... usize::MAX) accept heads within them.",
                 note="Only syntactically valid heads are judged. Header values are compared after the normalisation the statement prescribes (trim spaces, LF -> space)."),
     "C19": dict(cat="fault_enumeration", design="DESIGN.md §3 C19",
                 technique="runtime monitoring with pause injection: the scripted peer stops at every wire offset; blocked transport reads are compared with the payload available at that point (reference decoder), no clock involved",
-                text="For every pause offset of 18 fixed responses (and sampled offsets of random / > 64 KiB bodies) x segmentation x read size, send() must return once the blank line arrived and every byte the statement calls available must be readable before any transport read reaches the pause; end-of-body must be reported without blocking once the frame is complete, and bodiless responses must read as empty without blocking. write_to() is judged at every pause offset as well (available bytes reach the writer before the transport is asked for more).",
+                text="For every pause offset of 18 fixed responses (and sampled offsets of random / > 64 KiB bodies) x segmentation x read size, send() must return once the blank line arrived and every byte the statement calls available must be readable before any transport read reaches the pause; end-of-body must be reported without blocking once the frame is complete, and bodiless responses must read as empty without blocking. write_to() is judged at every pause offset as well (available bytes reach the writer before the transport is asked for more). Followed redirects whose body the server holds back must not block send().",
                 note="Logical oracle on the hooked transport: a read at a Pause step is what would block on a real socket. Uncompressed bodies only."),
     "C05": dict(cat="exploration", design="DESIGN.md §3 C05",
                 technique="runtime monitoring under hostile workloads: panic capture, counting-allocator heap bound, read/endless-stream fuel and wall watchdog as always-on monitors over exhaustive small-alphabet strings, mutations and endless streams; crashes attributed per shard process",
@@ -32,11 +32,11 @@ CHECKS = {
                 note="Bounds are engineering bounds (2x the documented limit + one buffer); the wall watchdog is inconclusive unless reproduced alone. Memory safety of dependencies is addressed only as far as Miri/valgrind passes reach (see DESIGN.md)."),
     "C06": dict(cat="fault_enumeration", design="DESIGN.md §3 C06",
                 technique="runtime monitoring with fault injection: reference encoders (flate2 levels 0-9, hand-written stored/fixed-Huffman encoder, gzip header options) produce the streams; every truncation offset and every trailer bit flip is served; payload is the prefix oracle after every read",
-                text="Compressed responses over all block types, levels, gzip header options, coding declarations (letter case, lists, Content-/Transfer-Encoding), framings, segmentations and read plans must decode to exactly the payload; unknown codings must pass through unchanged; every truncation offset of 10 fixed streams (framing adjusted or left short) and every bit flip of the gzip trailer must end with Err with only a payload prefix delivered; corrupted gzip bodies must not decode cleanly to different bytes; Accept-Encoding is observed on the wire. With Content-Length framing, bytes that follow the frame on the connection must not reach the decoder. Requests are made with and without allow_compression and with several methods (decoding depends on the response only); the JSON helpers are driven against damaged gzip trailers.",
+                text="Compressed responses over all block types, levels, gzip header options, coding declarations (letter case, lists, Content-/Transfer-Encoding), framings, segmentations and read plans must decode to exactly the payload; unknown codings must pass through unchanged; every truncation offset of 10 fixed streams (framing adjusted or left short) and every bit flip of the gzip trailer must end with Err with only a payload prefix delivered; corrupted gzip bodies must not decode cleanly to different bytes; Accept-Encoding is observed on the wire. With Content-Length framing, bytes that follow the frame on the connection must not reach the decoder. Requests are made with and without allow_compression and with several methods (decoding depends on the response only); the JSON helpers are driven against damaged gzip trailers. Statuses other than 200 (incl. unfollowed 3xx) and HTAB-separated coding lists are served as well.",
                 note="Trusts the reference encoders (cross-checked against flate2's decoder in the harness unit test). zlib-wrapped deflate, multi-member gzip and flips in raw-deflate bodies are outside the judged zone."),
     "C18": dict(cat="exploration", design="DESIGN.md §3 C18",
                 technique="runtime monitoring over a bounded-exhaustive configuration matrix plus every-cut segmentation: scripted responses, one-shot encoding_rs decode as oracle for the charset the statement selects",
-                text="Every exported charset x labels (canonical + WHATWG aliases, three letter cases) x Content-Type form x default-charset setting x API (text, text_with, text_utf8, text_reader with caller buffers 1..8192) x body kind (valid, random, truncated multi-byte tail, lone surrogates / escape garbage), every single cut offset of 14 multi-byte bodies, and random cases incl. BOM-prefixed bodies (judged for segmentation independence only); the decoded string must equal the one-shot decode with the selected charset and no API may fail. Labels of the WHATWG replacement decoder count as known labels.",
+                text="Every exported charset x labels (canonical + WHATWG aliases, three letter cases) x Content-Type form x default-charset setting x API (text, text_with, text_utf8, text_reader with caller buffers 1..8192) x body kind (valid, random, truncated multi-byte tail, lone surrogates / escape garbage), every single cut offset of 14 multi-byte bodies, and random cases incl. BOM-prefixed bodies (judged for segmentation independence only); the decoded string must equal the one-shot decode with the selected charset and no API may fail. Labels of the WHATWG replacement decoder count as known labels. A third of the reads go through Response::split().",
                 note="encoding_rs (the library the crate itself uses) is the decoding oracle: what is checked is the choice of charset, totality and chunking independence, not encoding_rs's tables."),
     "C07": dict(cat="exploration", design="DESIGN.md §3 C07",
                 technique="runtime monitoring of the bytes received by the scripted peer: independent strict request parser (cross-checked with httparse), de-chunking reference decoder and a value model of the builder calls as oracle, over generated builder programs and custom Body programs with write faults",
@@ -48,7 +48,7 @@ CHECKS = {
                 note="The quick tier runs a stride of the tunnelled rows (each needs a TLS handshake), the thorough tier all of them. The Host field of proxied plain-http requests is recorded, not judged."),
     "C09": dict(cat="exploration", design="DESIGN.md §3 C09",
                 technique="runtime monitoring of request histories: the harness plays the whole web through reactive scripted transports; the walk observed (address dialled + request target per hop) is compared with a simulation of the same table using the harness's own RFC 3986 resolver",
-                text="Generated redirect webs (chains, trees, cycles; all 3xx codes; every Location form incl. missing, unusable and non-http) are walked by send() under max_redirections {0,1,2,5,7} and follow on/off; the observed request sequence, the error raised at the bound, the set of followed statuses and Response::url/status must equal the reference walk, including the exhaustive chain-length x max boundary table. Every walk is repeated on the same PreparedRequest and must not depend on the first.",
+                text="Generated redirect webs (chains, trees, cycles; all 3xx codes; every Location form incl. missing, unusable and non-http) are walked by send() under max_redirections {0,1,2,5,7} and follow on/off; the observed request sequence, the error raised at the bound, the set of followed statuses and Response::url/status must equal the reference walk, including the exhaustive chain-length x max boundary table. Every walk is repeated on the same PreparedRequest and must not depend on the first. Chains are also walked under budgets around 2^31 and 2^32.",
                 note="Judged on the subset of reference syntax where RFC 3986 and the WHATWG URL standard agree; the rest is executed and only its prefix judged."),
     "C11": dict(cat="exploration", design="DESIGN.md §3 C11",
                 technique="runtime monitoring of the public decision function and of the dial: exhaustive small-scope host x no-proxy-list space and the 8-variable environment space (each shard process owns its environment), reference decision returning sets of acceptable outcomes",
@@ -56,7 +56,7 @@ CHECKS = {
                 note="No hook needed. Gray cases (listed in the evidence assumptions) are executed but not judged."),
     "C10": dict(cat="exploration", design="DESIGN.md §3 C10",
                 technique="runtime monitoring of per-hop wire bytes and dial log in scripted redirect chains (tunnelled hops observed through a live TLS server); per-hop application of the C07 request oracle, the reference proxy decision and cross-hop equality for 307/308",
-                text="Every body kind is sent through redirect chains of 1..4 hops that change host, port, scheme and proxy applicability; on each hop the bytes received by that hop's peer must be one well-formed request for that hop's URL with the caller's headers, a Host of that hop and framing matching the body written on that hop, the address dialled must follow the proxy decision re-evaluated for that hop, and after only 307/308 the method and body bytes must equal the first hop's. One known finding (multipart bodies are one-shot) is listed in known_findings.jsonl.",
+                text="Every body kind is sent through redirect chains of 1..4 hops that change host, port, scheme and proxy applicability; on each hop the bytes received by that hop's peer must be one well-formed request for that hop's URL with the caller's headers, a Host of that hop and framing matching the body written on that hop, the address dialled must follow the proxy decision re-evaluated for that hop, and after only 307/308 the method and body bytes must equal the first hop's. One known finding (multipart bodies are one-shot) is listed in known_findings.jsonl. Locations are served as absolute, network-path and absolute-path references.",
                 note="Method/body after 301/302/303 are not compared. Tunnelled hops are generated in one case out of four (TLS handshake cost)."),
     "C15": dict(cat="exploration", design="DESIGN.md §3 C15",
                 technique="runtime monitoring of the transmitted body: independent multipart/form-data decoder (boundary taken from the Content-Type on the wire) over generated forms, with a coverage bitset of part-edge offsets modulo the 8 KiB copy buffer",
@@ -68,19 +68,19 @@ CHECKS = {
                 note="Root certificates are only counted. Thread interleavings are those the OS produces; no data race is possible in safe Rust here, the concurrency part checks logical isolation of Arc copy-on-write."),
     "C12": dict(cat="fault_enumeration", design="DESIGN.md §3 C12",
                 technique="runtime monitoring with fault injection on the proxy connection: scripted CONNECT replies (every status, every cut offset, garbage, huge/endless bodies) and a live TLS server spliced in behind 2xx replies; event-order oracle over the transport trace (each write tagged with the reply bytes consumed), marker search in the raw proxy-side bytes, decode of the tunnelled request",
-                text="Every reply status 100..599, every truncation offset of three reply heads, refusal bodies around the 10 KiB cap and endless, garbage replies, and a configuration matrix of origin/proxy URL shapes are run; the CONNECT line, Proxy-Authorization, the absence of any write before a complete 2xx head or after a refusal, the ConnectError contents, the absence of caller data in clear on the proxy side, the absence of proxy credentials inside the tunnel and the verification of the tunnelled TLS session against the origin's name (certificate valid only for the proxy's name must be rejected) are checked. Session default headers carry markers too; a refusal followed by an I/O error instead of a close stays a refusal.",
+                text="Every reply status 100..599, every truncation offset of three reply heads, refusal bodies around the 10 KiB cap and endless, garbage replies, and a configuration matrix of origin/proxy URL shapes are run; the CONNECT line, Proxy-Authorization, the absence of any write before a complete 2xx head or after a refusal, the ConnectError contents, the absence of caller data in clear on the proxy side, the absence of proxy credentials inside the tunnel and the verification of the tunnelled TLS session against the origin's name (certificate valid only for the proxy's name must be rejected) are checked. Session default headers carry markers too; a refusal followed by an I/O error instead of a close stays a refusal. Same-host http->https redirects with differing proxies per scheme; IPv4-literal origins inside the tunnel.",
                 note="Quick runs the native-tls flavour, thorough both TLS flavours. IPv6 origins run with certificate checks waived (see DESIGN.md §8)."),
     "C14": dict(cat="exploration", design="DESIGN.md §3 C14",
                 technique="runtime monitoring of real TLS handshakes over loopback against fixture certificates (resolver hook H2 maps the names), exhaustive flag/certificate/path/placement matrix decided by a truth table, under both TLS backends (two harness flavours)",
-                text="Every cell of {CA-anchored, self-signed, unknown issuer, expired} x {name matches, differs} x accept_invalid_certs x accept_invalid_hostnames x root added x {direct, CONNECT through a real loopback proxy, https proxy with nested TLS} x {flags set on session, request, clone} is executed together with a sibling / original request that must stay unaffected; success is allowed only where the truth table allows it (safety), and required for the CA->leaf topology on DNS names or when certificate checks are waived (liveness); a rejected peer must never have received the request. Both native-tls and rustls flavours run in quick and thorough. Also: settings shared with live requests when unrelated setters run, and a self-signed (valid / expired) server certificate added as its own root.",
+                text="Every cell of {CA-anchored, self-signed, unknown issuer, expired} x {name matches, differs} x accept_invalid_certs x accept_invalid_hostnames x root added x {direct, CONNECT through a real loopback proxy, https proxy with nested TLS} x {flags set on session, request, clone} is executed together with a sibling / original request that must stay unaffected; success is allowed only where the truth table allows it (safety), and required for the CA->leaf topology on DNS names or when certificate checks are waived (liveness); a rejected peer must never have received the request. Both native-tls and rustls flavours run in quick and thorough. Also: settings shared with live requests when unrelated setters run, and a self-signed (valid / expired) server certificate added as its own root. URLs with IP-literal hosts (address covered / not covered by the certificate), direct and through a CONNECT proxy.",
                 note="Trusts OpenSSL/rustls to perform the checks they are asked to perform and the fixtures (verified with openssl verify at generation). tls-rustls-native-roots and Windows paths are not run."),
     "C13": dict(cat="fault_enumeration", design="DESIGN.md §3 C13",
                 technique="runtime monitoring with fault injection on real loopback sockets: peers stall or drip at every protocol phase; elapsed-time classes, end-of-body signals and /proc thread/fd counts are the observations; hook H3 forces reader/watchdog interleavings; load probe + retry keep wall-clock verdicts honest",
-                text="Every stall phase (upload, status line, headers, blank line, length/close/chunked body positions, TLS handshake, CONNECT reply, inside the tunnel) x {silent, drip} x four timeout configurations, redirect chains exceeding T in total, converse histories (complete responses with up to five reads after end-of-body) and 24 forced reader/watchdog schedules are executed; the call must end with Err within T (or R) + 1.5 s, never report a cut body as complete, never report a completed response as timed out before the deadline, and leave no thread or descriptor behind. A descriptor-exhaustion fault (0..3 free slots at connect time) must not disable the deadline.",
+                text="Every stall phase (upload, status line, headers, blank line, length/close/chunked body positions, TLS handshake, CONNECT reply, inside the tunnel) x {silent, drip} x four timeout configurations, redirect chains exceeding T in total, converse histories (complete responses with up to five reads after end-of-body) and 24 forced reader/watchdog schedules are executed; the call must end with Err within T (or R) + 1.5 s, never report a cut body as complete, never report a completed response as timed out before the deadline, and leave no thread or descriptor behind. A descriptor-exhaustion fault (0..3 free slots at connect time) must not disable the deadline. R=0 is a boundary row of the timeout table.",
                 note="Timing classes are separated by more than an order of magnitude (bound T+1.5 s vs a 20 s hold); a suspect timing on a loaded machine is retried and then reported inconclusive. Connect phase, Windows branches not covered."),
     "C17": dict(cat="exploration", design="DESIGN.md §3 C17",
                 technique="runtime monitoring on real loopback sockets: accept / refuse / black-hole listeners behind a name mapped by resolver hook H2, exhaustive behaviour assignments; listener logs, result and coarse elapsed-time classes compared with a reference racing order",
-                text="Every assignment of {accept, refuse, black-hole} to address lists of 0..3 entries per family, both family orders in the resolver output, four deadline classes (3 198 x 4 cells in thorough, a stride in quick), plus single-address and IP-literal fast paths: the call succeeds iff an address accepts in time, the request arrives at the first acceptor of the order v6[0], v4[0], v6[1], ..., k black-holes before it cost at most k x 200 ms + 1.5 s, all-refuse yields ConnectionRefused, and failures are reported within the attempts' own limits.",
+                text="Every assignment of {accept, refuse, black-hole} to address lists of 0..3 entries per family, both family orders in the resolver output, four deadline classes (3 198 x 4 cells in thorough, a stride in quick), plus single-address and IP-literal fast paths: the call succeeds iff an address accepts in time, the request arrives at the first acceptor of the order v6[0], v4[0], v6[1], ..., k black-holes before it cost at most k x 200 ms + 1.5 s, all-refuse yields ConnectionRefused, and failures are reported within the attempts' own limits. connect_timeout boundary values up to Duration::MAX.",
                 note="Depends on Linux loopback behaviour (SYN drop on accept-queue overflow, verified by a probe connect per black-hole) and on coarse wall-clock classes; suspect timings are retried after a load probe."),
 }
 
